@@ -270,6 +270,14 @@ def _justified(ctx, esc, it):
         why = _path_naming_input(ctx, esc, fi, node, it)
         if why:
             return why
+    # 2c''. constant key of a record built elsewhere: every producer stores the key on every path
+    if it.kind == 'key' and isinstance(node, ast.Subscript) and isinstance(node.value, ast.Name) and isinstance(node.slice, ast.Constant):
+        why = _record_key_guaranteed(ctx, fi, node.value.id, node.slice.value)
+        if why:
+            return why
+        if why is None:
+            # not counted: only a producer that demonstrably omits the key is reported (keeps the rule exact)
+            return 'the producers of this record could not be traced (not decided)'
     # 2d. codec names
     if it.kind == 'external' and it.type == 'LookupError' and isinstance(node, ast.Call):
         why = _codec_known(ctx, fi, node)
@@ -381,6 +389,102 @@ def _path_naming_input(ctx, esc, fi, node, it):
             if ok and n:
                 return 'name parts are never empty (components filtered by truthiness / index fallback, C15-D3; header name used only `if filename`)'
     return None
+
+
+def _dict_has_key_on_all_paths(ctx, g, rec_expr, at_node, key):
+    """The dict `rec_expr` (a dict literal / dict(...) call, or a local of g) certainly holds `key` when control is at at_node."""
+    if isinstance(rec_expr, ast.Dict):
+        return any(isinstance(k, ast.Constant) and k.value == key for k in rec_expr.keys)
+    if isinstance(rec_expr, ast.Call) and dotted(rec_expr.func) == 'dict':
+        return any(k.arg == key for k in rec_expr.keywords)
+    if not isinstance(rec_expr, ast.Name):
+        return False
+    cfg = ctx.cfg(g)
+    nm = rec_expr.id
+    ds = U.local_defs(g.node).get(nm, [])
+    creators = [n for v, k, st in ds if k == 'assign' for n in cfg.nodes_of(st)]
+    if not creators:
+        return False
+    if any(k == 'assign' and v is not None and _dict_has_key_on_all_paths(ctx, g, v, None, key) for v, k, st in ds if not isinstance(v, ast.Name)) \
+            and len(ds) == 1:
+        return True
+    stores = [n for n in cfg.stmt_nodes() if isinstance(n.stmt, ast.Assign) and any(
+        isinstance(t, ast.Subscript) and isinstance(t.value, ast.Name) and t.value.id == nm and isinstance(t.slice, ast.Constant) and t.slice.value == key
+        for t in n.stmt.targets)]
+    if not stores or at_node is None:
+        return False
+    return all(cfg.find_path(c, lambda m: m is at_node, edge_ok=F.normal, stop=lambda m: m in stores) is None for c in creators)
+
+
+def _record_key_guaranteed(ctx, fi, name, key, _depth=0):
+    """Every function that produces the record `name` of fi (a parameter, or an element of a parameter) stores `key` in it on
+    every path before handing it out.  Returns a reason (guaranteed), False (a producer was found that does not), or None
+    (the producers could not be traced: tuple results, deeper call chains)."""
+    repo, res = ctx.repo, ctx.res
+    if _depth > 2:
+        return None
+    element = False
+    pname = name
+    if name not in fi.params:
+        ds = U.local_defs(fi.node).get(name, [])
+        if not ds or not all(k == 'for' and isinstance(v, ast.Name) and v.id in fi.params for v, k, s_ in ds):
+            return None
+        pname = ds[0][0].id
+        element = True
+    pidx = fi.params.index(pname)
+    producers = []
+    sites = _callers_of(ctx, fi)
+    if not sites:
+        return None
+    for f, c in sites:
+        off = 1 if fi.params and fi.params[0] in ('self', 'cls') and isinstance(c.func, ast.Attribute) else 0
+        a = U.kwarg(c, pname, pidx - off)
+        if a is None:
+            return None
+        exprs = [a]
+        if isinstance(a, ast.Name):
+            if a.id in f.params:
+                why = _record_key_guaranteed(ctx, f, a.id, key, _depth + 1) if not element else None
+                if why:
+                    continue
+                return why
+            exprs = [v for v, k, s_ in U.local_defs(f.node).get(a.id, []) if v is not None]
+            if not exprs:
+                return None
+        for e in exprs:
+            if isinstance(e, (ast.YieldFrom, ast.Await)):
+                e = e.value
+            if not isinstance(e, ast.Call):
+                return None
+            gs = res.callee_funcs(f, e, allow_name=True, count=False)
+            if not gs:
+                return None
+            producers.extend(gs)
+    names = set()
+    for g in producers:
+        cfg = ctx.cfg(g)
+        rets = [n for n in cfg.nodes if n.kind == 'return' and n.stmt.value is not None]
+        if not rets:
+            return None
+        for r in rets:
+            v = r.stmt.value
+            if isinstance(v, ast.Tuple):
+                return None
+            if not element:
+                if not _dict_has_key_on_all_paths(ctx, g, v, r, key):
+                    return False
+            else:
+                if not isinstance(v, ast.Name):
+                    return None
+                apps = [n for n in cfg.stmt_nodes() for c in F.node_calls(n, 'append') if isinstance(c.func.value, ast.Name) and c.func.value.id == v.id]
+                if not apps:
+                    return None
+                for n in apps:
+                    for c in F.node_calls(n, 'append'):
+                        if not (c.args and _dict_has_key_on_all_paths(ctx, g, c.args[0], n, key)):
+                            return False
+        names.add(g.qual.split(':')[-1])
+    return 'every producer (%s) stores %r in the record on every path before it hands it out' % (', '.join(sorted(names)), key)
 
 
 LOSSLESS_CODECS = {'latin1', 'latin-1', 'latin_1', 'iso-8859-1', 'iso8859-1', 'iso_8859_1', 'l1', 'cp437', 'cp850'}
